@@ -39,6 +39,7 @@ impl<'a> World<'a> {
                 v.mounted = true;
                 v.fat_changed_since_mount = false;
                 v.min_free_since_mount = v.free;
+                v.max_free_since_mount = v.free;
                 if v.geom.fat32 {
                     let (c, hnt) = self.disk.with_image(|img| (img.u32_at(v.geom.fsinfo, 488), img.u32_at(v.geom.fsinfo, 492)));
                     v.info_at_mount = Some((c, hnt, v.free));
